@@ -13,6 +13,7 @@ mod c05;
 mod c06;
 mod c07;
 mod c08;
+mod c11;
 mod c14;
 mod c15;
 mod c16;
@@ -41,6 +42,7 @@ fn main() {
         "c18-replay" => c18::replay(rest),
         "c18-parse" => c18::parse(rest),
         "c16-queue" => c16::queue(rest),
+        "c11-drive" => c11::drive(rest),
         "c14-drive" => c14::drive(rest),
         "c14-replay" => c14::replay(),
         "c15-replay" => c15::replay(rest),
